@@ -137,6 +137,11 @@ package indexing
 //@ macro func poFuncHas(a PackageAnnotations, t string, x string) bool = exists i int :: 0 <= i && i < len(a.PackageOnlyAnnotations) && a.PackageOnlyAnnotations[i].Kind == annotations.TestOnlyOnFunc && a.PackageOnlyAnnotations[i].ObjectName == t && contains(a.PackageOnlyAnnotations[i].AllowedPackages, x)
 //@ macro func poMethHas(a PackageAnnotations, t string, m string, x string) bool = exists i int :: 0 <= i && i < len(a.PackageOnlyAnnotations) && a.PackageOnlyAnnotations[i].Kind == annotations.TestOnlyOnMethod && a.PackageOnlyAnnotations[i].ReceiverType == t && a.PackageOnlyAnnotations[i].ObjectName == m && contains(a.PackageOnlyAnnotations[i].AllowedPackages, x)
 
+// allow-list relations over this package and the direct imports with a fact
+//@ pure func poTypeDeclared(pass *analysis.Pass, local *annotations.PackageAnnotations, p string, t string, x string) bool = (srcLocal(pass, p) && poTypeHas(*local, t, x)) || (exists j int :: srcImport(pass, j, p) && poTypeHas(impAnn(pass, j), t, x))
+//@ pure func poFuncDeclared(pass *analysis.Pass, local *annotations.PackageAnnotations, p string, t string, x string) bool = (srcLocal(pass, p) && poFuncHas(*local, t, x)) || (exists j int :: srcImport(pass, j, p) && poFuncHas(impAnn(pass, j), t, x))
+//@ pure func poMethDeclared(pass *analysis.Pass, local *annotations.PackageAnnotations, p string, t string, m string, x string) bool = (srcLocal(pass, p) && poMethHas(*local, t, m, x)) || (exists j int :: srcImport(pass, j, p) && poMethHas(impAnn(pass, j), t, m, x))
+
 // The @packageonly index: every allow-list of the index is the union of the lists of all annotation lines on that item,
 // over this package and the direct imports with a fact.
 //@ func BuildPackageOnlyIndex
@@ -144,9 +149,9 @@ package indexing
 //@   requires pass != nil && packageAnnotations != nil
 //@   fresh
 //@   ensures result != nil && amWF(result)
-//@   ensures forall p string, t string, x string :: contains(amTypeAtt(result, p, t), x) <==> ((srcLocal(pass, p) && poTypeHas(*packageAnnotations, t, x)) || (exists j int :: srcImport(pass, j, p) && poTypeHas(impAnn(pass, j), t, x)))
-//@   ensures forall p string, t string, x string :: contains(amFuncAtt(result, p, t), x) <==> ((srcLocal(pass, p) && poFuncHas(*packageAnnotations, t, x)) || (exists j int :: srcImport(pass, j, p) && poFuncHas(impAnn(pass, j), t, x)))
-//@   ensures forall p string, t string, m string, x string :: contains(amMethAtt(result, p, t, m), x) <==> ((srcLocal(pass, p) && poMethHas(*packageAnnotations, t, m, x)) || (exists j int :: srcImport(pass, j, p) && poMethHas(impAnn(pass, j), t, m, x)))
+//@   ensures forall p string, t string, x string :: contains(amTypeAtt(result, p, t), x) <==> poTypeDeclared(pass, packageAnnotations, p, t, x)
+//@   ensures forall p string, t string, x string :: contains(amFuncAtt(result, p, t), x) <==> poFuncDeclared(pass, packageAnnotations, p, t, x)
+//@   ensures forall p string, t string, m string, x string :: contains(amMethAtt(result, p, t, m), x) <==> poMethDeclared(pass, packageAnnotations, p, t, m, x)
 //@   assigns nothing
 //@   loop 1 frame
 //@   loop 2 frame
